@@ -1,6 +1,7 @@
 SPECIFICATION TraceSpec
 CONSTANTS
   Kinds = {}
+  Forms = {}
   Methods = {"GET", "HEAD"}
   SegToks = {}
   PathLen = 0
